@@ -2,6 +2,12 @@
 and the signature function that labels a failing case for known_findings.jsonl."""
 
 PROPS = {
+    'C19': {
+        'families': [('c19', 20, 200)],
+        'rule': 'generated valid archives (CARv1; CARv2 with / without data padding, with either index codec, index-less; identity CIDs, repeated blocks, same hash under several codecs, long CIDs, roots among the blocks or not) fed to the BUILT car binary: index x {multihash-sorted, sorted, none} and --version 1, index create x codec, detach-index, list, get-block (present key, same hash under another codec, absent key), filter x {inverse} x --version {1,2} with random CID sets incl. absent CIDs, concat of 2-3 archives x --version {1,2}; every emitted archive is then judged by the binary\'s own inspect --full and verify; the model must predict every output byte for byte and both verdicts; S: the output computed from the block-list description (payload unchanged, index = regenerated index, selected blocks in source order, concatenated sequences under the first roots), inspect accepts, verify accepts iff the roots are among the blocks; distinct = distinct script text',
+        'trusted': ['urfave/cli argument parsing', 'the process boundary (exit status, files) of the built binary'],
+        'assumptions': ['inputs are valid archives without null padding (the quantifier of the property)', 'get-dag is not modelled (its traversal is the C15 engine; its writers are the C04/C05 store and the root-module SelectiveCar of C15)'],
+    },
     'C18': {
         'families': [('c18', 25, 100)],
         'rule': 'random source trees on disk (regular files of 0 B .. several 256 KiB chunks, nested directories, empty directories, symlinks with relative / absolute / dangling targets, unicode and odd names; thorough: one directory wide enough to be HAMT-sharded) x --version {1,2} x --no-wrap / wrapped with 1-3 arguments (directories and plain files) packed by the BUILT car binary; the engine (BuildUnixFSRecursive) is replayed in process to record the blocks in put order and the root; the model session (proxy root, those puts, Finalize, ReplaceRootsInFile) must predict the archive the binary wrote BYTE FOR BYTE; car root must print the header root = the engine root; the archive is extracted by the binary from the file or from a pipe on stdin into an empty directory and the model (fed the recorded engine trace) must predict the whole extracted tree, which S requires to equal the source tree (names, contents, link targets); distinct = distinct script text',
@@ -192,6 +198,8 @@ def signature(pid, script, I, S):
         return 'C09/' + toks.get('ep', '?') + '-panic-alloc-or-class'
     if pid == 'C08':
         return 'C08/' + toks.get('api', '?') + '-concurrent-run-' + ('race' if 'race=1' in I else 'inconsistent')
+    if pid == 'C19':
+        return 'C19/' + toks.get('op', '?') + '-output-rejected-or-differs'
     if pid == 'C18':
         if fam == 'extract':
             return 'C18/extract-does-not-reproduce-the-tree'
